@@ -46,7 +46,7 @@ func cmdC14(args []string) int {
 	trace.WriteJSON(filepath.Join(*out, "stats.json"), map[string]interface{}{
 		"chains": st.Chains, "blocks": st.Blocks, "ethTxs": st.EthTxs, "schedules": st.Schedules, "crashes": st.Crashes,
 		"rpcQueries": st.RpcQueries, "events": st.Events, "classes": st.Classes, "pairs": pairs, "viewShapes": shapes, "goMismatch": st.GoMismatch, "stuck": st.Stuck,
-		"bigBlocks": st.BigBlocks, "bigCrashPoints": st.BigCrashPoints})
+		"ownGasBeforeEth": st.OwnGasBeforeEth, "bigBlocks": st.BigBlocks, "bigCrashPoints": st.BigCrashPoints})
 	fmt.Println("chains", st.Chains, "schedules", st.Schedules, "crashes", st.Crashes, "rpc", st.RpcQueries, "events", st.Events,
 		"classes", st.Classes, "pairs", len(pairs), "goMismatch", st.GoMismatch, "stuck", len(st.Stuck))
 	if len(st.Stuck) > 0 {
